@@ -76,7 +76,7 @@ CHECKS = {
         technique="Lean 4 theorems (refinement to a normal form + integer semantics) + differential correspondence + SMT-style oracle",
         design="§6 C12"),
     "C16": dict(
-        text="Lexical part: the lexer is modelled on signed bytes (OratioModel/Riddle/Lexer.lean); 10 theorems C16_* prove: every keyword/operator of the symbol enum - RE-EXTRACTED from riddle_lexer.h on every run (translator, Gen/Symbols.lean) - lexes under its documented spelling; maximal munch for identifiers vs keywords for ALL words; integer and decimal literals denote exactly the number they spell (canonical rational); white space and both comment forms (incl. `**/`) are transparent. Tie: exact token streams on ~10^4 generated byte strings; oracle: an independent longest-match tokenizer. Parser and evaluation parts are added by the parser model (C16Parser) and the end-to-end check.",
+        text="Lexical part: the lexer is modelled on signed bytes (OratioModel/Riddle/Lexer.lean); 10 theorems C16_* prove: every keyword/operator of the symbol enum - RE-EXTRACTED from riddle_lexer.h on every run (translator, Gen/Symbols.lean) - lexes under its documented spelling; maximal munch for identifiers vs keywords for ALL words; integer and decimal literals denote exactly the number they spell (canonical rational); white space and both comment forms (incl. `**/`) are transparent. Tie: exact token streams on ~10^4 generated byte strings; oracle: an independent longest-match tokenizer. Parser part: riddle::parser is modelled in Lean (OratioModel/Riddle/Parser.lean); 15 theorems C16Parser_* prove for ALL expressions/statements of the grammar that printing then parsing returns the same tree (round trip, so grouping follows the documented precedence and associativity), that a parenthesis may enclose any expression, and that parsing is total; tie: exact equality of the printed AST / error message on generated, mutated and truncated programs. Evaluation part: programs of constant equalities `x == <expr>;` are solved by the real solver in every configuration of the tier and every exposed value must equal the exact value of the expression.",
         note=TB + "The grammar/precedence specification is the one documented in the property's anchor. `this` is read as an identifier (enumerator THIS_ID is never produced) - documented exception in C16_keyword_table.",
         technique="Lean 4 theorems on the lexer model + translator for the symbol table + differential token-stream correspondence + independent tokenizer",
         design="§6 C16"),
@@ -87,7 +87,7 @@ CHECKS = {
         design="§6 C17"),
     "C18": dict(
         text="Input part: 3 theorems C18_* prove that for EVERY byte string the lexer model returns tokens ending in EOF or one of six reported errors - the model's own did-not-finish outcome is never produced and every next() consumes input. Tie: the token correspondence of C16 on valid, invalid, truncated and mutated inputs under a 2 s watchdog; API part: the histories of C07 and C10 replayed against builds with assertions on (ASan/UBSan in the thorough tier): any abort, assertion, sanitizer report, uncaught exception or hang is a violation with the history as replay.",
-        note=TB + "PARTIAL: memory safety, leaks and hangs inside the planner's search are runtime behaviours observed by sanitizers and watchdog during the runs, not proved; whole programs through read()+solve() are exercised by the end-to-end checks.",
+        note=TB + "PARTIAL: memory safety, leaks and hangs inside the planner's search are runtime behaviours observed by sanitizers and watchdog during the runs, not proved. Whole well-typed programs of six generated families go through read()+solve() in Debug (assertions on) and Release configurations; the parser runs on generated/mutated/truncated programs and on input nested up to 10^6 deep (recorded known finding: stack overflow of the recursive-descent parser at ~10^5 nested parentheses / unary operators).",
         technique="Lean 4 totality theorems for the lexer model + watchdog/sanitizer-instrumented differential runs",
         design="§6 C18"),
 }
